@@ -450,6 +450,13 @@ Definition carries_config (fix_n1 : bool) (earlier : list res) : bool :=
   | _ => fix_n1 && forallb (fun r => match r with RErr => true | ROk => false end) earlier
   end.
 
+(* overlay.go requestTree / treestorage.go: a tree id is marked "requested" before RequestTree is
+   sent; the mark is cleared by the answer or by a FAILED send. A request that was sent and is never
+   answered (the peer died or restarted without the tree; handleRequestTree stays silent when it
+   does not hold the tree) leaves the mark for ever and no second request is made: messages of
+   later runs on that tree are parked. [fix_n2]: the mark expires / a negative answer exists. *)
+Definition asks_again (fix_n2 request_unanswered : bool) : bool := negb request_unanswered || fix_n2.
+
 Section Multi.
   Variable St : Type.
   Variable snd : St -> nat -> St * res.     (* one SendTo towards a destination *)
